@@ -2,6 +2,11 @@ import Afkak.ClientCache
 import Afkak.Monitor.C08
 import AfkakProofs.Client.Merge
 import AfkakProofs.Client.Route
+import AfkakProofs.Client.A_Reload
+import AfkakProofs.Client.A_Recover
+import AfkakProofs.Client.A_Kept
+import AfkakProofs.Client.A_Wf
+import AfkakProofs.Client.A_Rk
 import AfkakProps.Open.C08
 /-!
 # C08 — cached cluster metadata mirrors the broker's answer and self-heals when stale
@@ -167,6 +172,109 @@ theorem C08_wf_reachable :
   · intro c foe g rs hw
     exact (handleResponses_spec foe g rs c hw).2.2.1
 
+/-- **Coroutine level of the second sentence** (was an open statement): in EVERY reachable state of the client
+    model (any event list, no hypothesis on the run), once a topic's routing is invalid the step of the next send
+    of a key of that topic hands NO payload request to any broker client: `_send_broker_aware_request` first starts
+    a metadata load for the topic (`load_metadata_for_topics`, through the broker-unaware path), and every
+    continuation that can run inside the same step (the load failing synchronously: client closing, no broker client,
+    every bootstrap host exhausted) ends with the send failing, never with `issueSlot`.  Proof: ids of sends and
+    broker-unaware requests are positions in every reachable state (`reachable_ids`), and a stack invariant over
+    the action interpreter (`AfkakProofs/Client/A_Reload.lean`). -/
+theorem C08_invalidated_topic_reloads_before_send : Open.C08_invalidated_topic_reloads_before_send := by
+  intro cfg evs key o env st hinv _ _ ob hob
+  have hids : Afkak.ClientNet.Ids st := Afkak.ClientNet.reachable_ids cfg evs {} Afkak.ClientNet.Ids.init
+  have h := Afkak.ClientNet.send_invalid_no_payload cfg st env key o true true hids
+    (Afkak.ClientNet.topicInvalid_noRoute hinv) ob hob
+  cases ob <;> try trivial
+  case mk k b e w => cases w <;> simp_all [Afkak.ClientNet.Ob.isPay]
+
+/-! Non-vacuity of `C08_invalidated_topic_reloads_before_send`: after a metadata load, a produce to t/0 answered
+    NotLeader (6) leaves the topic invalid in a state that is not closing, and the next send issues a METADATA
+    request (to the connected broker), no payload request. -/
+example :
+    let cfg : Afkak.ClientNet.Cfg := { timeout := 10, disconnectOnTimeout := false, bootHosts := [("boot", 9092)] }
+    let evs : List (Afkak.ClientNet.Env × Afkak.ClientNet.Ev) :=
+      [({ shuffles := [[], [0]] }, .load 0 []), ({}, .bootOk 0),
+       ({}, .bootReply 0 (.metadata [⟨1, "h1", 9092⟩] [⟨"t", 0, [⟨0, 0, 1⟩]⟩])),
+       ({}, .send 1 [("t", 0)] none true true),
+       ({}, .fire 0 (.ok (.items [(("t", 0), 6, 0)])))]
+    let st := evs.foldl (fun s e => (Afkak.ClientNet.step cfg s e.1 e.2).1) ({} : Afkak.ClientNet.St)
+    topicInvalid st.cache "t" = true ∧ st.closing = false ∧ 2 ∉ st.liveOps ∧
+    ((Afkak.ClientNet.step cfg st { shuffles := [[0]] } (.send 2 [("t", 0)] none true true)).2.any
+      (fun ob => match ob with | .mk _ _ _ (.metadata _) => true | _ => false)) = true := by
+  decide +kernel
+
+/-- **The client never forgets a broker it has learned**: under EVERY event of the client model (API calls, replies,
+    failures, timeouts, `close()`, resets - any state, any environment answers) every broker known before the step is
+    still known after it (`_brokers` is only added to or overwritten): the monitor `brokersKept` that is evaluated on
+    every pair of consecutive dumps of the real client.  The known brokers are what a broker-agnostic request - the
+    metadata reload that heals stale routing - is tried on before the bootstrap hosts (which may be gone by then).
+    Kernel level: the same for the cache operations the direct histories drive. -/
+theorem C08_brokers_never_forgotten :
+    (∀ (cfg : Afkak.ClientNet.Cfg) (st : Afkak.ClientNet.St) (env : Afkak.ClientNet.Env) (e : Afkak.ClientNet.Ev),
+      brokersKept st.cache (Afkak.ClientNet.step cfg st env e).1.cache = true) ∧
+    (∀ (c : Cache) bs ts a n, hasKey n c.brokers = true → hasKey n (mergeTopicMetadata c bs ts a).1.brokers = true) ∧
+    (∀ (c : Cache) foe g rs, (handleResponses c foe g rs).1.brokers = c.brokers) ∧
+    (∀ c : Cache, (resetAll c).brokers = c.brokers) ∧ (∀ (c : Cache) ts, (resetTopics c ts).brokers = c.brokers) ∧
+    (∀ (c : Cache) g, (resetGroup c g).brokers = c.brokers) := by
+  refine ⟨fun cfg st env e => Afkak.ClientNet.brokersKept_of_bsub (Afkak.ClientNet.step_bsub cfg st env e), ?_,
+    fun c foe g rs => Afkak.ClientNet.handleResponses_brokers foe g rs c, fun _ => rfl,
+    fun c ts => Afkak.ClientNet.resetTopics_brokers ts c, fun _ _ => rfl⟩
+  intro c bs ts a n hn
+  simp only [mergeTopicMetadata]
+  rw [Afkak.ClientNet.foldl_mergeTopic_brokers]
+  exact Afkak.ClientNet.updateBrokersDict_mono _ _ _ hn
+
+/-- **The kernel theorems apply wherever the coroutine merges**: every reachable state of the client model (any
+    event list: API calls, replies, failures, timeouts, close, resets) has a well-formed cache (`CWf`: unique keys,
+    every routing entry listed for its topic; `BrokersKeyed`) - the hypothesis of `C08_mirror`, `C08_close_missing`,
+    `C08_invalidate`, `C08_updateMetadata_next_connect`, `C08_recovers_step` - so a metadata response merged into the
+    cache of ANY reachable state satisfies the mirror monitor. -/
+theorem C08_reachable_cache_wf (cfg : Afkak.ClientNet.Cfg) (evs : List (Afkak.ClientNet.Env × Afkak.ClientNet.Ev)) :
+    let st := evs.foldl (fun s e => (Afkak.ClientNet.step cfg s e.1 e.2).1) ({} : Afkak.ClientNet.St)
+    CWf st.cache ∧ BrokersKeyed st.cache ∧
+    ∀ bs ts fetchedAll, mirrorOk st.cache (mergeTopicMetadata st.cache bs ts fetchedAll).1 bs ts fetchedAll
+      (mergeTopicMetadata st.cache bs ts fetchedAll).2 = true := by
+  intro st
+  have h : Afkak.ClientNet.WfC st.cache :=
+    Afkak.ClientNet.reachable_wfc cfg evs {} ⟨CWf.empty, fun e he => by cases he⟩
+  exact ⟨h.1, h.2, fun bs ts a => (mergeTopicMetadata_mirror h.1 h.2 bs ts a).1⟩
+
+/-- **The well-formedness monitor holds of every reachable state of the model**: `Afkak.Monitor.C08.wf` - every routing
+    entry is for a partition listed for its topic, and every broker the routing refers to (a partition's leader, a
+    group's coordinator) is a KNOWN broker, so `_get_brokerclient` of a cached leader/coordinator never meets an
+    unknown node id - is evaluated on every dump of the real client (it is what catches a refresh that prunes
+    `_brokers`); here it is proved of the cache of every reachable state of the client model (any event list). -/
+theorem C08_reachable_monitor_wf (cfg : Afkak.ClientNet.Cfg) (evs : List (Afkak.ClientNet.Env × Afkak.ClientNet.Ev)) :
+    Afkak.Monitor.C08.wf (evs.foldl (fun s e => (Afkak.ClientNet.step cfg s e.1 e.2).1) ({} : Afkak.ClientNet.St)).cache = true :=
+  Afkak.ClientNet.wf_of_inv3 (Afkak.ClientNet.reachable_inv3 cfg evs {} Afkak.ClientNet.Inv3.init)
+
+/-- The open statement `C08_recovers_within_retry_budget` is FALSE as stated: its runs may contain clock steps, and a
+    request that nobody answers before the client's request timeout is timed out by the client itself
+    (`_mrtb_timeout`): the caller's third send fails with `FailedPayloadsError([], [(payload, RequestTimedOut)])`,
+    the request is no longer pending - so "no request pending at the end" holds - and no response list is ever
+    delivered.  Witness (`RecoverWitness`, AfkakProofs/Client/A_Recover.lean): bootstrap, learn t/0 -> broker 1, two
+    sends answered by broker 1, a third send followed by `advance 11` under a 10 s timeout; every hypothesis of the
+    statement holds (decided by evaluation).  Replayed on the real client (corpus/client/net-c08-recover-third-send-times-out.json):
+    same observations - `result 3 failedPayloads - 0:brokerError:7`.  That is the designed behaviour, not a defect:
+    the statement is too strong (it needs "no request of the run times out", and also constrains neither what a
+    BOOTSTRAP connection answers nor duplicate topic names in the layout); it stays open. -/
+theorem C08_recovers_within_retry_budget_counterexample : ¬ Open.C08_recovers_within_retry_budget := by
+  open Afkak.ClientNet Afkak.ClientNet.RecoverWitness in
+  intro h
+  have hwf : WellFormedRun cfg (past ++ evs) :=
+    ⟨by decide +kernel, noBadOp_of_all (by decide +kernel)⟩
+  have hnf : NoFuel cfg {} (past ++ evs) := by
+    simp only [past, evs, List.cons_append, List.nil_append, NoFuel, and_true]
+    decide +kernel
+  have h2 := h cfg past evs L keys whatOf 1 2 3 hwf hnf
+  simp only at h2
+  have hcons : Open.ConsistentWith L cfg whatOf st0 evs :=
+    consistentWith_of_B L cfg whatOf evs st0 (by decide +kernel)
+  obtain ⟨tags, hmem, _⟩ := h2 (by decide +kernel) (by decide +kernel) (by decide) hcons
+    (mkAgrees_of_all (by decide +kernel)) (by decide +kernel) (by decide +kernel)
+  exact no_responses_of_all (o := 3) (tr := traceOf cfg st0 evs) (by decide +kernel) ⟨tags, hmem⟩
+
 /-! Non-vacuity: a response that re-addresses a broker, drops another from a full refresh (its client is
     closed), re-leaders a partition, names a leaderless and an unknown-leader partition, and carries an
     erroring topic — on a cache that has a second topic, a client per broker and a coordinator. -/
@@ -201,8 +309,12 @@ C08_fail_on_error_false_never_raises
 C08_updateMetadata_next_connect
 C08_recovers_step
 C08_wf_reachable
+C08_invalidated_topic_reloads_before_send
+C08_recovers_within_retry_budget_counterexample
+C08_brokers_never_forgotten
+C08_reachable_cache_wf
+C08_reachable_monitor_wf
 -/
 /- OPEN_STATEMENTS
-C08_invalidated_topic_reloads_before_send
 C08_recovers_within_retry_budget
 -/
